@@ -39,6 +39,7 @@
 
 #include "alg_sig.h"
 #include "erasurecode_log.h"
+#include "erasurecode_verif.h"
 
 /* =~=*=~==~=*=~==~=*=~= Supported EC backends =~=*=~==~=*=~==~=*=~==~=*=~== */
 
@@ -89,6 +90,7 @@ int next_backend_desc = 0;
 static ec_backend_t liberasurecode_backend_instance_find(int desc)
 {
     struct ec_backend *b = NULL;
+    LEC_VERIF_YIELD(LEC_VP_LOOKUP_WALK);
     SLIST_FOREACH(b, &active_instances, link) {
         if (b->idesc == desc)
             break;
@@ -107,6 +109,7 @@ ec_backend_t liberasurecode_backend_instance_get_by_desc(int desc)
 {
     struct ec_backend *b = NULL;
 
+    LEC_VERIF_YIELD(LEC_VP_LOOKUP_ENTRY);
     if (rwlock_rdlock(&active_instances_rwlock) != 0)
         return NULL;
     b = liberasurecode_backend_instance_find(desc);
@@ -124,6 +127,7 @@ ec_backend_t liberasurecode_backend_instance_get_by_desc(int desc)
 int liberasurecode_backend_alloc_desc(void)
 {
     for (;;) {
+        LEC_VERIF_YIELD(LEC_VP_ALLOC_DESC);
         if (next_backend_desc < 0 || next_backend_desc == INT_MAX)
             next_backend_desc = 0;
         ++next_backend_desc;
@@ -144,13 +148,16 @@ int liberasurecode_backend_instance_register(ec_backend_t instance)
     int desc = -1;  /* descriptor to return */
     int rc = 0;     /* return call value */
 
+    LEC_VERIF_YIELD(LEC_VP_REGISTER_ENTRY);
     rc = rwlock_wrlock(&active_instances_rwlock);
     if (rc == 0) {
         SLIST_INSERT_HEAD(&active_instances, instance, link);
+        LEC_VERIF_YIELD(LEC_VP_REGISTER_INSERTED);
         desc = liberasurecode_backend_alloc_desc();
         if (desc <= 0)
             goto register_out;
         instance->idesc = desc;
+        LEC_VERIF_YIELD(LEC_VP_REGISTER_DESC_SET);
     } else {
         goto exit;
     }
@@ -170,9 +177,11 @@ int liberasurecode_backend_instance_unregister(ec_backend_t instance)
 {
     int rc = 0;  /* return call value */
 
+    LEC_VERIF_YIELD(LEC_VP_UNREGISTER_ENTRY);
     rc = rwlock_wrlock(&active_instances_rwlock);
     if (rc == 0) {
         SLIST_REMOVE(&active_instances, instance, ec_backend, link);
+        LEC_VERIF_YIELD(LEC_VP_UNREGISTER_REMOVED);
     }  else {
         goto exit;
     }
@@ -332,6 +341,7 @@ int liberasurecode_instance_create(const ec_backend_id_t id,
         free (instance);
         return -EBACKENDINITERR;
     }
+    LEC_VERIF_YIELD(LEC_VP_CREATE_AFTER_INIT);
 
     /* Register instance and return a descriptor/instance id */
     return liberasurecode_backend_instance_register(instance);
@@ -352,7 +362,9 @@ int liberasurecode_instance_destroy(int desc)
         return -EBACKENDNOTAVAIL;
 
     /* Call private exit() for the backend */
+    LEC_VERIF_YIELD(LEC_VP_DESTROY_AFTER_LOOKUP);
     instance->common.ops->exit(instance->desc.backend_desc);
+    LEC_VERIF_YIELD(LEC_VP_DESTROY_AFTER_EXIT);
 
     /* dlclose() backend library */
     liberasurecode_backend_close(instance);
@@ -360,6 +372,7 @@ int liberasurecode_instance_destroy(int desc)
     /* Remove instance from registry */
     rc = liberasurecode_backend_instance_unregister(instance);
     if (rc == 0) {
+        LEC_VERIF_YIELD(LEC_VP_DESTROY_BEFORE_FREE);
         free(instance);
     }
 
